@@ -645,7 +645,12 @@ func racePass(cfg checkCfg, checkDir, work, tier string, instrOv map[string]stri
 		}
 		to := rc.Timeout
 		if to == "" {
-			to = "10m"
+			// the bodies take about a second per iteration on the unchanged
+			// tree; a body that hangs on changed code gives no verdict anyway
+			to = "3m"
+			if tier == "thorough" {
+				to = "15m"
+			}
 		}
 		logBase := filepath.Join(work, fmt.Sprintf("race%d.log", i))
 		tmpDir := filepath.Join(work, fmt.Sprintf("race%d.tmp", i))
